@@ -220,3 +220,32 @@ Proof.
   destruct (idx parts (length parts - 1)) as [plat|?|?|]; cbn [bind] in H; try discriminate.
   inversion H; subst w. cbn [w_name w_version]. split; apply idx_nth; assumption.
 Qed.
+
+(* expandPEP425Tag: the expanded list is the product of the three dot-separated sets, in order *)
+Theorem expand_tags_in : forall py abi plat p a l,
+  In (p, a, l) (expand_tags py abi plat) <->
+  In p (split_on 46 py) /\ In a (split_on 46 abi) /\ In l (split_on 46 plat).
+Proof.
+  intros py abi plat p a l. unfold expand_tags. rewrite in_flat_map. split.
+  - intros (p' & Hp & H). rewrite in_flat_map in H. destruct H as (a' & Ha & H).
+    rewrite in_map_iff in H. destruct H as (l' & E & Hl). inversion E; subst. auto.
+  - intros (Hp & Ha & Hl). exists p. split; [exact Hp|]. rewrite in_flat_map.
+    exists a. split; [exact Ha|]. rewrite in_map_iff. exists l. auto.
+Qed.
+
+Lemma expand_inner_length : forall (p : bytes) (la lp : list bytes),
+  length (flat_map (fun a => map (fun l => (p, a, l)) lp) la) = length la * length lp.
+Proof.
+  intros p la lp. induction la as [|a la IH]; [reflexivity|].
+  cbn [flat_map length]. rewrite app_length, IH, map_length. lia.
+Qed.
+
+Theorem expand_tags_length : forall py abi plat,
+  length (expand_tags py abi plat) =
+  length (split_on 46 py) * (length (split_on 46 abi) * length (split_on 46 plat)).
+Proof.
+  intros py abi plat. unfold expand_tags.
+  generalize (split_on 46 py) as lpy. intros lpy.
+  induction lpy as [|p ps IH]; [reflexivity|].
+  cbn [flat_map length]. rewrite app_length, IH, expand_inner_length. lia.
+Qed.
